@@ -54,7 +54,10 @@ def register(claim):
                '3 precisions x 4 epsilons, sign classes, 31 type lists x strict/sloppy, lengths, nulls, duplicates, allowed '
                'values, regular expressions, null-valued, missing field) TLC checks ImplSat = SpecSat where the documentation '
                'fixes the answer, and emits expected verdicts; the harness runs each family through real verify_df on every '
-               'dtype variant and compares verdicts, totals, per-field counts and to_frame().',
+               'dtype variant and compares verdicts, totals, per-field counts and to_frame().  VerifyReport.tla states the result object as a '
+               'function of the verdict map (totals, per-field counts, tabular form, printed report under report=all / fields, plain and ascii '
+               'marks) and NullNeutral; 300/3000 families are re-run with one constraint of every kind on the same field, under both report '
+               'modes, and with null-valued constraints of every missing kind added; each call is a line judged by Trace_VerifyReport.',
           note=NOTE_COMMON + ' Known finding D2 (min/max on tz-aware columns raise).',
           ref='DESIGN.md section 5, C02')
     claim('C06',
